@@ -11,14 +11,15 @@ open VgiVerif.Py
 
 /-- The extracted tables and shapes are the ones the model and the proofs are about: scalar annotation ↦ Arrow type,
 Enum / Arrow-object / frozenset / dict mapping, the compact scalar table, element conversion for frozenset and dict
-(repaired tree), the explicit-ArrowType guard of the compact plan (repaired tree), the branch orders of the two
+(repaired tree), the explicit-ArrowType guard of the compact plan (repaired tree), the dictionary-free construction of
+columns with an Enum below a struct (repaired tree; what makes the ideal `Py.arrowRT` a faithful environment), the branch orders of the two
 conversion functions, distinct one-byte markers. -/
 theorem C03_shapes :
     Gen.C03.scalarArrow = [("str", .utf8), ("bytes", .binary), ("int", .int .i64), ("float", .f64), ("bool", .bool)]
     ∧ Gen.C03.enumIsDictStr = true ∧ Gen.C03.arrowObjIsBinary = true ∧ Gen.C03.setIsList = true ∧ Gen.C03.dictIsMap = true
     ∧ Gen.C03.compactTypes.map Prod.fst = ["bytes", "str", "int", "float", "bool"]
     ∧ Gen.C03.setRecurses = true ∧ Gen.C03.dictRecurses = true ∧ Gen.C03.compactRefusesExplicit = true
-    ∧ Gen.C03.enumFallbackByValue = true
+    ∧ Gen.C03.enumFallbackByValue = true ∧ Gen.C03.buildsDictionaryFree = true
     ∧ Gen.C03.serBranches = ["None", "exact-scalar", "Schema", "RecordBatch", "ArrowSerializableDataclass",
         "_BytesSerializable", "Enum", "frozenset", "dict", "list"]
     ∧ Gen.C03.deserBranches = ["None", "Schema", "RecordBatch", "deserialize_from_bytes", "Enum", "dataclass-dict",
@@ -26,7 +27,7 @@ theorem C03_shapes :
     ∧ Gen.C03.compactMarker ≠ Gen.C03.ipcFirstByte ∧ Gen.C03.compactMarker ≠ Gen.C03.unionMarker
     ∧ Gen.C03.unionMarker ≠ Gen.C03.ipcFirstByte
     ∧ Gen.C03.compactMarker < 256 ∧ Gen.C03.unionMarker < 256 ∧ Gen.C03.tagMax = 65535 := by
-  refine ⟨rfl, rfl, rfl, rfl, rfl, by decide, rfl, rfl, rfl, rfl, by decide, by decide, by decide, by decide, by decide,
+  refine ⟨rfl, rfl, rfl, rfl, rfl, by decide, rfl, rfl, rfl, rfl, rfl, by decide, by decide, by decide, by decide, by decide,
     by decide, by decide, rfl⟩
 
 /-- Round trip of a value of any supported annotation, any nesting depth: converted, stored in a typed Arrow column,
